@@ -7,9 +7,10 @@ End-to-end corollaries for C16 (MuSig2, ECDH, silent payments): `Props/C16.lean`
 
 * ECDH and the silent-payment sender/scanner agreement never call `lift_x`: they are restated about `Btc.EC.ops C`
   ITSELF (raw integer pairs), the transfer from `opsSub K` being definitional or a list induction.
-* MuSig2 parses every public key and nonce with `lift_x` (`cpoint`), all through the session: T2 / T3 are stated over
-  `opsSub K` (`Btc.EC.ops C` applied to the underlying pairs, `lift_x` answering inside the `n`-torsion); the raw
-  restatement would need a parametricity argument through the whole session model and is not attempted.
+* MuSig2 parses every public key and nonce with `lift_x` (`cpoint`), all through the session: T2 / T3 below are stated
+  over `opsSub K` (`Btc.EC.ops C` applied to the underlying pairs, `lift_x` answering inside the `n`-torsion).  The RAW
+  restatement over `Btc.EC.ops C` itself is in `Proofs/E2E/C16Raw.lean`: every session function commutes with C01's
+  `OpsHom` (`opsSub_hom`), under the single named cofactor-one hypothesis `hcof`.
 -/
 namespace Btc.E2E
 open Btc Btc.EC Btc.C01 Btc.Py Btc.C16
